@@ -169,7 +169,9 @@ class ORToolsSolver(BaseSolver):
             )
 
         sorted_schedule = [
-            sorted(scheduled_operation, key=lambda x: x.start_time)
+            sorted(
+                scheduled_operation, key=lambda x: (x.start_time, x.end_time)
+            )
             for scheduled_operation in unsorted_schedule
         ]
 
